@@ -77,7 +77,12 @@ def sig_source(params, first=None):
   vk = [p for p in params if p[1] == 'vk']
 
   def one(p):
-    return p[0] if p[2] is None else f'{p[0]}={default_token(p[0])!r}'
+    name = p[0]
+    if len(p) > 3 and p[3]:
+      # annotation tags: fiddle attaches them when the config is created
+      name += ': typing.Annotated[object, ' + ', '.join(p[3]) + ']'
+      return name if p[2] is None else f'{name} = {default_token(p[0])!r}'
+    return name if p[2] is None else f'{name}={default_token(p[0])!r}'
 
   out += [one(p) for p in po]
   if po:
@@ -170,6 +175,9 @@ def install(specs):
           o.__module__ = 'fsim.stubmod'
         except (AttributeError, TypeError):
           pass
+    ann = {p[0]: list(p[3]) for p in spec['params'] if len(p) > 3 and p[3]}
+    if ann:
+      obj._fsim_ann = ann  # the model reads the annotation tags from here
     out[spec['name']] = obj
   return out
 
